@@ -12,6 +12,7 @@ import (
 	"golang.org/x/sys/unix"
 
 	"github.com/panjf2000/gnet/v2/internal/verifmc/seqmc"
+	bsPool "github.com/panjf2000/gnet/v2/pkg/pool/byteslice"
 )
 
 type c17viol struct{ sig, msg string }
@@ -201,6 +202,19 @@ func TestMC_C17conv(t *testing.T) {
 	for idx := 0; idx <= maxIdx; idx++ {
 		total++
 		s := ip6ZoneToString(uint32(idx))
+		if idx%7 == 0 || idx < 400 {
+			// an unrelated user of the shared byte-slice pool: the zone string handed out above must
+			// not be memory that has been given back to the pool
+			for _, k := range []int{len(s), 8, 16, 32} {
+				if k > 0 {
+					b := bsPool.Get(k)
+					for i := range b[:cap(b)] {
+						b[:cap(b)][i] = 'x'
+					}
+					bsPool.Put(b)
+				}
+			}
+		}
 		if got := ip6ZoneToInt(s); got != idx {
 			rec(&c17viol{"zone:roundtrip", fmt.Sprintf("zone index %d becomes %q which denotes index %d", idx, s, got)})
 		}
